@@ -13,7 +13,7 @@
   hypotheses on the input, assembled from per-pass lemmas `post_P` / `keeps_P` (lean/Cog/NF/*.lean).
 -/
 import Cog.NF.EnumNames
-import Cog.NF.Tables
+import Cog.NF.GoEnumNames
 import Cog.NF.Witness
 import Cog.Gen.Chains
 namespace Cog.C06
@@ -123,6 +123,15 @@ theorem C06_go_EnumsNamed (S S' : Schemas) (hw : wfIR S = true)
     keepsEpt keepsShape goChain keepsEpt_sound
     (fun S S' hH hr => post_AnonymousEnumToExplicitType S S' hH hr)
     (keepsShape_sound qNoEnum qNoEnum_shape) (by decide) S S' (wfIR_EptOkAll hw) h
+
+/-- Go: the member names of every enum object carry the object's name as prefix — for EVERY input.
+    `PrefixEnumValues` establishes it; no later pass of the regenerated chain changes or creates an
+    enum object. -/
+theorem C06_go_EnumNames (S S' : Schemas) (h : chain goChain S = .ok S') : EnumNames_go S' = true := by
+  rw [EnumNames_go_iff]
+  exact chain_via (H := fun _ => True) (Q := GoEnumOk) .prefixEnumValues
+    (fun _ => true) keepsGoEnum goChain (fun _ _ _ _ _ _ => trivial)
+    (fun S S' _ hr => post_PrefixEnumValues S S' hr) keepsGoEnum_sound (by decide) S S' trivial h
 
 /-! ## Python -/
 
